@@ -71,8 +71,18 @@ func (rw *simRW) WriteHeader(code int) {
 	}
 }
 
+// afterHandler: net/http forbids any use of the ResponseWriter after the handler
+// returned (its buffers are recycled: in a real server this is a nil dereference
+// in a goroutine nobody recovers, i.e. the process dies).
+func (c *simConn) afterHandler(what string) {
+	if c.handlerDone {
+		c.w.o.violate("C05", "writer-used-after-handler-returned", "conn%d: %s on the http.ResponseWriter after its handler had returned (with net/http this crashes the server process)", c.id, what)
+	}
+}
+
 func (rw *simRW) Write(p []byte) (int, error) {
 	c := rw.c
+	c.afterHandler("Write")
 	c.w.sim.YieldHere("rw.Write")
 	if c.cut || c.bodyClosed {
 		return 0, c.serverWriteFailed("write")
@@ -87,6 +97,7 @@ func (rw *simRW) Write(p []byte) (int, error) {
 // FlushError is what net/http's response writer offers since Go 1.20.
 func (rw *simRW) FlushError() error {
 	c := rw.c
+	c.afterHandler("Flush")
 	c.w.sim.YieldHere("rw.Flush")
 	if c.cut || c.bodyClosed {
 		return c.serverWriteFailed("flush")
